@@ -151,6 +151,82 @@ func matches(f Finding, prop, key string) bool {
 	return f.Key == key
 }
 
+// Shard returns (k, K): this process handles shard k of K (0, 1 when not sharded).
+func Shard() (int, int) {
+	k, _ := strconv.Atoi(os.Getenv("VERIF_SHARD"))
+	n, _ := strconv.Atoi(os.Getenv("VERIF_SHARDS"))
+	if n <= 1 {
+		return 0, 1
+	}
+	return k, n
+}
+
+// Partial is what a shard hands back to the parent process.
+type Partial struct {
+	Cov         map[string]interface{} `json:"cov"`
+	Violations  []Violation            `json:"violations"`
+	Machinery   []string               `json:"machinery"`
+	Samples     []interface{}          `json:"samples"`
+	NonTrivial  []string               `json:"nontrivial"`
+	Evals       int64                  `json:"evals"`
+	Assumptions []string               `json:"assumptions"`
+}
+
+// WritePartial stores the run's results for the parent (used by shard processes instead of Finish).
+func (r *Run) WritePartial(path string) error {
+	r.mu.Lock()
+	defer r.mu.Unlock()
+	p := Partial{Cov: r.Cov, Violations: r.violations, Machinery: r.machinery, Samples: r.samples, Evals: r.evals, Assumptions: r.Assumptions}
+	for k := range r.nontrivial {
+		p.NonTrivial = append(p.NonTrivial, k)
+	}
+	b, err := json.Marshal(p)
+	if err != nil {
+		return err
+	}
+	return os.WriteFile(path, b, 0o644)
+}
+
+// Merge adds a shard's results: integer counters are summed, other values kept from the first shard.
+func (r *Run) Merge(p *Partial) {
+	r.mu.Lock()
+	defer r.mu.Unlock()
+	for k, v := range p.Cov {
+		if f, ok := v.(float64); ok && f == float64(int64(f)) {
+			cur, _ := r.Cov[k].(int64)
+			if k == "states" {
+				// every shard model-checks the same configuration: not additive
+				if cur < int64(f) {
+					r.Cov[k] = int64(f)
+				}
+				continue
+			}
+			r.Cov[k] = cur + int64(f)
+		} else if _, have := r.Cov[k]; !have {
+			r.Cov[k] = v
+		}
+	}
+	for _, v := range p.Violations {
+		if !r.seenKeys[v.Key] {
+			r.seenKeys[v.Key] = true
+			r.violations = append(r.violations, v)
+		}
+	}
+	r.machinery = append(r.machinery, p.Machinery...)
+	for _, s := range p.Samples {
+		if len(r.samples) < 8 {
+			r.samples = append(r.samples, s)
+		}
+	}
+	for _, k := range p.NonTrivial {
+		r.nontrivial[k] = true
+	}
+	r.evals += p.Evals
+	if r.Assumptions == nil {
+		r.Assumptions = p.Assumptions
+	}
+}
+
 // Finish writes the evidence file, prints verdict lines and returns the exit code.
 func (r *Run) Finish() int {
 	r.mu.Lock()
